@@ -1,0 +1,129 @@
+//go:build verif
+// +build verif
+
+package astisub
+
+import (
+	"fmt"
+	"sort"
+	"strings"
+
+	"golang.org/x/text/unicode/norm"
+)
+
+const verifSTLDomainMax = 0x3000
+
+func verifRunes(s string) string {
+	var o []string
+	for _, r := range s {
+		o = append(o, fmt.Sprint(int(r)))
+	}
+	return "[" + strings.Join(o, ",") + "]"
+}
+
+func verifBytes(s string) string {
+	var o []string
+	for _, b := range []byte(s) {
+		o = append(o, fmt.Sprint(int(b)))
+	}
+	return "[" + strings.Join(o, ",") + "]"
+}
+
+func verifDumpSTLTables() string {
+	var sec []string
+	// character code tables
+	var nums []int
+	for n := range stlCharacterCodeTables {
+		nums = append(nums, int(n))
+	}
+	sort.Ints(nums)
+	var tabs []string
+	for _, n := range nums {
+		m := stlCharacterCodeTables[uint16(n)]
+		var es []string
+		for k := 0; k < 256; k++ {
+			if v, ok := m.Get(k); ok {
+				es = append(es, fmt.Sprintf("[%d,%s]", k, verifRunes(v.(string))))
+			}
+		}
+		tabs = append(tabs, fmt.Sprintf("[%d,[%s]]", n, strings.Join(es, ",")))
+	}
+	sec = append(sec, `"cct":[`+strings.Join(tabs, ",")+`]`)
+	// forward unicode / diacritic maps
+	var uf, df []string
+	for k := 0; k < 256; k++ {
+		if v, ok := stlUnicodeMapping.Get(byte(k)); ok {
+			uf = append(uf, fmt.Sprintf("[%d,%s]", k, verifRunes(v.(string))))
+		}
+		if v, ok := stlUnicodeDiacritic.Get(byte(k)); ok {
+			df = append(df, fmt.Sprintf("[%d,%s]", k, verifRunes(v.(string))))
+		}
+	}
+	sec = append(sec, `"unicodeFwd":[`+strings.Join(uf, ",")+`]`, `"diacriticFwd":[`+strings.Join(df, ",")+`]`)
+	// inverse maps, NFD, ccc on the domain
+	var ui, di, nfd, ccc []string
+	for r := rune(0); r < verifSTLDomainMax; r++ {
+		if r >= 0xd800 && r < 0xe000 {
+			continue
+		}
+		s := string(r)
+		if v, ok := stlUnicodeMapping.GetInverse(s); ok {
+			ui = append(ui, fmt.Sprintf("[%d,%d]", int(r), int(v.(byte))))
+		}
+		if v, ok := stlUnicodeDiacritic.GetInverse(s); ok {
+			di = append(di, fmt.Sprintf("[%d,%d]", int(r), int(v.(byte))))
+		}
+		if d := norm.NFD.String(s); d != s {
+			nfd = append(nfd, fmt.Sprintf("[%d,%s]", int(r), verifRunes(d)))
+		}
+		if c := norm.NFD.PropertiesString(s).CCC(); c != 0 {
+			ccc = append(ccc, fmt.Sprintf("[%d,%d]", int(r), int(c)))
+		}
+	}
+	sec = append(sec, `"unicodeInv":[`+strings.Join(ui, ",")+`]`, `"diacriticInv":[`+strings.Join(di, ",")+`]`,
+		`"nfd":[`+strings.Join(nfd, ",")+`]`, `"ccc":[`+strings.Join(ccc, ",")+`]`)
+	// NFC of (entry, diacritic) pairs of the latin table
+	var nfc []string
+	lat := stlCharacterCodeTables[stlCharacterCodeTableNumberLatin]
+	for k := 0; k < 256; k++ {
+		v, ok := lat.Get(k)
+		if !ok {
+			continue
+		}
+		for a := 0xc0; a <= 0xcf; a++ {
+			av, ok := lat.Get(a)
+			if !ok {
+				continue
+			}
+			in := v.(string) + av.(string)
+			if out := string(norm.NFC.Bytes([]byte(in))); out != in {
+				nfc = append(nfc, fmt.Sprintf("[%d,%d,%s]", k, a, verifRunes(out)))
+			}
+		}
+	}
+	sec = append(sec, `"nfc":[`+strings.Join(nfc, ",")+`]`)
+	// disk format codes and language codes (probed on the candidate keys)
+	var fr, lg, lgi []string
+	for n := 0; n < 100; n++ {
+		k := fmt.Sprintf("STL%02d.01", n)
+		if v, ok := stlFramerateMapping.Get(k); ok {
+			back, _ := stlFramerateMapping.GetInverse(v)
+			fr = append(fr, fmt.Sprintf("[%s,%d,%s]", verifBytes(k), v.(int), verifBytes(back.(string))))
+		}
+	}
+	for n := 0; n < 256; n++ {
+		for _, k := range []string{fmt.Sprintf("%02X", n), fmt.Sprintf("%02x", n)} {
+			if v, ok := stlLanguageMapping.Get(k); ok {
+				back, _ := stlLanguageMapping.GetInverse(v)
+				e := fmt.Sprintf("[%s,%s,%s]", verifBytes(k), verifBytes(v.(string)), verifBytes(back.(string)))
+				if len(lg) == 0 || lg[len(lg)-1] != e {
+					lg = append(lg, e)
+				}
+			}
+		}
+	}
+	_ = lgi
+	sec = append(sec, `"framerate":[`+strings.Join(fr, ",")+`]`, `"language":[`+strings.Join(lg, ",")+`]`,
+		fmt.Sprintf(`"domainMax":%d`, verifSTLDomainMax))
+	return "{" + strings.Join(sec, ",\n") + "}\n"
+}
